@@ -453,7 +453,7 @@ func (g *ubjGen) scalarPayload(m byte) val.V {
 		g.b = binary.BigEndian.AppendUint64(g.b, bits)
 		return val.V{K: val.F64, Bits: bits}
 	case 'C':
-		c := r.Byte()
+		c := r.Byte() & 0x7f // draft 12: a char is at most 127
 		g.b = append(g.b, c)
 		return val.VUint(uint64(c))
 	case 'S':
